@@ -8,9 +8,12 @@ LEVEL = "proof"
 MANIFEST = {
     "technique": "Coq proof over a hand-written Gallina model of mp4.DecodeFile's box loop / File.AddChild / "
                  "startSegmentIfNeeded / File.Encode (segment mode, box and byte level incl. Fragment.SetTrunDataOffsets) / "
-                 "UpdateSidx, composed with C02's reader's view of a byte stream (scan) + differential correspondence "
-                 "(extracted OCaml vs Go) + a search that checks partition, positions, byte-identical re-encoding and sidx "
-                 "tiling on synthesized files against the harness's own top-level box scanner and sidx parser",
+                 "UpdateSidx (sizes, durations, earliest presentation time), composed with C02's reader's view of a byte stream "
+                 "(scan), C01's box model (per-box re-encoding = C01_fixpoint) and C05's segment decoder / byte reader "
+                 "(simulation + C05_segment_decode) + differential correspondence "
+                 "(extracted OCaml vs Go; every box re-encoded through the extracted C01 model) + a search that checks partition, "
+                 "positions as byte offsets, byte-identical re-encoding and sidx tiling / ept on synthesized files against the "
+                 "harness's own top-level box scanner and sidx parser",
     "level_text": "Theorems (coq/c12/C12Theorems.v), for ALL top-level box sequences and decode flags accepted by the "
                   "model: the fragments of the segments hold exactly the emsg/moof/mdat boxes of the input in order "
                   "(C12_partition, C12_partition_fragmented), every fragment is emsg* [moof [mdat] emsg*] (C12_fragment_shape), "
@@ -31,19 +34,41 @@ MANIFEST = {
                   "(any traf order, fragments without the track, empty truns) and fits 32 bits, reference_ID/timescale are the "
                   "reference track's - for segments of ANY size and duration (C12_sidx_tiles; the pre-85561e1 text wrapped "
                   "silently: C12_sidx_pinned_refuted); the reference track is the first video track in moov order, else the first "
-                  "audio track, else the first track (C12_reference_track). Explored only (search/correspondence, not proved): that "
-                  "the real boxes satisfy the per-box hypotheses (bytes compared on synthesized files), earliest_presentation_time "
-                  "(mirrors the code: first fragment only), tfra/further sidx boxes left stale by UpdateSidx, lazily decoded mdat. "
+                  "audio track, else the first track (C12_reference_track); earliest_presentation_time is version-1, 0 without "
+                  "nonZeroEPT and otherwise the presentation time (tfdt base + signed composition offset, mod 2^64) of the FIRST "
+                  "SAMPLE of the reference track in the first segment wherever it sits - later fragment, later traf, behind empty "
+                  "truns (C12_sidx_ept; the pre-48b8dea text wrote 0 / the decode time: C12_sidx_ept_pinned_refuted = finding "
+                  "C12-F7); the per-box hypothesis of C12_reencode_identical is discharged by C01's fixpoint theorems for every "
+                  "box that the library wrote or whose decoded tree has no reported reason to differ, the byte environment "
+                  "being computed from the input bytes by C01's model (C12_reencode_identical_c01); for every layout_ok byte "
+                  "stream (boxes as long as their Size(), < 2^64 bytes, any flags) MediaSegment.StartPos / Fragment.StartPos ARE "
+                  "the byte offsets at which the stream splits into init ++ sidx ++ segments ++ mfra resp. into the fragments' "
+                  "children, and C05's byte reader (next_box) decodes at the offset of each child - the moof and the mdat of the "
+                  "pair among them - exactly that child (C12_partition_bytes, C12_partition_bytes_pair); C12's loop and C05's "
+                  "segment decoder agree through an explicit abstraction (C12_c05_simulation: default flags, styp/sidx/emsg/moof/"
+                  "mdat/other streams, with or without init), hence by C05_segment_decode C12's fragments are one for one the "
+                  "encoded fragments with moof start / mdat payload positions equal to the stream positions "
+                  "(C12_c05_segment_decode). Explored only (search/correspondence, not proved): that "
+                  "the real boxes satisfy the per-box hypotheses (each box of the synthesized files is re-encoded through the "
+                  "extracted C01 model and compared with what Go writes; c01_box itself is shown by running C01's decoder), that "
+                  "the first sample has the minimal presentation time (open GOPs), tfra/further sidx boxes left stale by "
+                  "UpdateSidx, lazily decoded mdat, the ISM / start-on-moof flags in the C05 composition. "
                   "The model is tied to /repo on every run by running it "
                   "(extracted) against mp4.DecodeFile/Encode/UpdateSidx on synthesized files, including multi-track files with "
-                  "arbitrary track ids and traf orders, data offsets that skip payload bytes (the model predicts the rewritten moof "
-                  "bytes), and lazily decoded files with virtual mdat boxes of 2-8 GiB.",
+                  "arbitrary track ids and traf orders, first fragments without the reference track, empty truns in front of the "
+                  "first sample, signed composition offsets, data offsets that skip payload bytes (the model predicts the "
+                  "rewritten moof bytes), and lazily decoded files with virtual mdat boxes of 2-8 GiB.",
     "level_note": "Trusted: Coq kernel, extraction (ExtrOcamlBasic), the OCaml/Go glue, the abstraction of a top-level box "
                   "to (kind, Size(), the fields the assembly reads, its bytes, the position of a single trun's data_offset). "
                   "Byte-identity of one re-encoded box is C01's claim and Size() = bytes written C02's: hypotheses of "
-                  "C12_reencode_identical, observed by the harness (bytes compared), not proved here. Read-only imports: "
+                  "C12_reencode_identical; for C01-modelled boxes discharged by C01's theorems (C12_reencode_identical_c01), whose "
+                  "model/code tie is C01's own check plus the R lines here. Read-only imports: "
                   "coq/c02 C02AggModel/C02AggFragProofs/C02AggScanProofs (box_ok, all_ok, scan, scan_all_ok), coq/c05 "
-                  "C05CodecModel (be32). Box-internal decoding is not modelled.",
+                  "C05CodecModel (be32, rd32), C05SegCodecModel (next_box, dec_top_box), C05SegModel/C05SegProofs (seg_decode, "
+                  "decode_stream), C05SidxProofs (witness fragment of the example), coq/c01 C01Model/C01FixProofs/C01WhyProofs "
+                  "(decode, raw_box, fixpoint_full, fixpoint_partial). The abstraction functions of the C05 composition (decoded "
+                  "trafs, payload and position by tag) are parameters: that a moof's trafs are what C05's dec_moof returns for its "
+                  "bytes is C05's statement. Box-internal decoding is not modelled in C12 itself.",
 }
 
 
@@ -81,9 +106,9 @@ def run(ctx):
         "inserted the tfra offsets are stale. The property's tiling claim is about the (first) sidx only.",
         "boxes outside init/sidx/segments/mfra (free, a second ftyp, a progressive mdat ...) are dropped by segment-mode Encode "
         "(C12_reencode_refuted lists every class).",
-        "earliest_presentation_time (nonZeroEPT) is taken from the FIRST fragment of the first segment only: when that fragment "
-        "holds no traf of the reference track (tracks in alternating single-track fragments) it is 0, and the composition offset "
-        "is only looked for in the first trun. Model, generator and oracle mirror this; the property text does not constrain ept.",
+        "earliest_presentation_time (nonZeroEPT) is the presentation time of the FIRST sample (decode order) of the reference "
+        "track in the first segment (since 48b8dea, finding C12-F7); with open GOPs a later sample can be presented earlier: the "
+        "minimum over the samples is not computed by the code and not claimed. A negative offset on base time 0 wraps to 2^64-n.",
         "a segment of 2 GiB or more, or with 2^32 or more ticks of the reference track, cannot be indexed by a sidx: UpdateSidx "
         "returns an error (since 85561e1) and the search accepts that.",
     ]
@@ -161,8 +186,11 @@ def run(ctx):
                        "random handler kinds / timescales / missing trex, trafs in random order, tracks missing from fragments, 0-2 "
                        "truns of 0-3 samples, durations up to 2^32-1, duplicate trafs; half of them with virtual mdat boxes making a "
                        "segment exactly 2^31-2 .. 2^33+5 bytes, B lines), then n/6 byte-level re-encodings (R lines, a third with "
-                       "skewed data offsets); distinct = distinct case lines; search: partition vs intended "
-                       "segmentation, StartPos vs own scanner, re-encode bytes, UpdateSidx tiling and durations; n/2 multi-track "
+                       "skewed data offsets; every box below 4 KiB carries its bytes and is re-encoded by the extracted C01 model); distinct = "
+                       "distinct case lines; search: partition vs intended "
+                       "segmentation, StartPos vs own scanner and as byte offsets into the input (box header at StartPos, children "
+                       "back to back, moof.StartPos, mdat payload offset and bytes), re-encode bytes, UpdateSidx tiling, durations "
+                       "and ept (first sample of the reference track, wherever it sits); n/2 multi-track "
                        "files incl. huge ones: UpdateSidx must refuse >= 2^31 bytes / >= 2^32 ticks and otherwise write the true "
                        "sizes and durations; skewed data offsets (known finding C12-K1)" % (exh, n))
 
